@@ -123,7 +123,8 @@ def run(s):
 
 
 def _witness(ctor, init, prefix, src, check):
-  lines = [_WITNESS_HEAD, f'x = pg.{ctor}({init!r})']
+  """ctor: 'List' / 'Dict', or complete source lines that bind `x`."""
+  lines = [_WITNESS_HEAD, f'x = pg.{ctor}({init!r})' if ctor in ('List', 'Dict') else ctor]
   for p in prefix:
     lines.append(f'run({p!r})')
   if src is not None:
@@ -210,14 +211,27 @@ class Session:
     self.obs = obs                  # None: every read API; else the names to use
     self.resync_on_fail = resync_on_fail
     self.r = _copy_plain(init)
-    self.x = _fresh(kind, init)
+    self.x = self._make(init)
     self.base = _copy_plain(init)   # contents at the last (re)sync
     self.prefix = []                # op sources since the last (re)sync
+
+  def _make(self, r):
+    """The symbolic container under test, holding the plain contents `r`."""
+    return _fresh(self.kind, r)
+
+  def _ctor(self):
+    """What the witness starts from: the kind, or source lines binding `x`."""
+    return self.kind
+
+  def _post(self, op, cid, key, before):
+    """Further checks after a step that held so far; records its own failure."""
+    del op, cid, key, before
+    return True
 
   def resync(self):
     if not self.resync_on_fail:
       return
-    self.x = _fresh(self.kind, self.r)
+    self.x = self._make(self.r)
     self.base = _copy_plain(self.r)
     self.prefix = []
 
@@ -251,7 +265,7 @@ class Session:
       ok = got[0] == 'exc'
     if not ok:
       msg = f'{op.src} on {before!r}: got {got}, reference {want}'
-      wit = _witness(kind, self.base, self.prefix, op.src,
+      wit = _witness(self._ctor(), self.base, self.prefix, op.src,
                      f'assert got == {want!r}, got' if want[0] == 'ok' or want[1] in ('IndexError', 'KeyError')
                      else f'assert got[0] == "exc", got  # plain container raises {want[1]}')
       rec.case(cid, key, False, msg, wit)
@@ -259,7 +273,7 @@ class Session:
       return False
     if not isinstance(self.x, (pg.List, pg.Dict)):
       rec.case(cid, key, False, f'{op.src}: container replaced by {type(self.x)}',
-               _witness(kind, self.base, self.prefix, op.src, f'assert isinstance(x, pg.{kind}), type(x)'))
+               _witness(self._ctor(), self.base, self.prefix, op.src, f'assert isinstance(x, pg.{kind}), type(x)'))
       self.resync()
       return False
     bad = _observe(self.x, self.r, kind, light=not op.mut and not self.full_reads, names=self.obs)
@@ -270,9 +284,12 @@ class Session:
       fid = cid if where == 'state' else f'{kind.lower()}.read/{name}'
       msg = (f'after {op.src} on {before!r}: observation {name}: got {ogot}, '
              f'reference {owant} (reference contents {self.r!r})')
-      wit = _witness(kind, self.base, self.prefix + [op.src], None,
+      wit = _witness(self._ctor(), self.base, self.prefix + [op.src], None,
                      f'got = run({osrc!r})\nassert got == {owant!r}, got')
       rec.case(fid, key, False, msg, wit)
+      self.resync()
+      return False
+    if not self._post(op, cid, key, before):
       self.resync()
       return False
     rec.case(cid, key, True)
@@ -1233,7 +1250,383 @@ def drv_dict_histories(tier, seed):
   return rec.result()
 
 
-DRIVERS = [drv_list_single, drv_list_histories, drv_list_ties, drv_dict_single, drv_dict_histories]
+# ---------------------------------------------------------------------------
+# Nested containers, ancestor-level rebind, notification switched off.
+#
+# The statement quantifies over *any* sequence of container operations.  A
+# container that sits inside another symbolic value can be changed (a) directly
+# and (b) through any of its ancestors: `ancestor.rebind({'<path to the
+# container><key>': value})`, with the same documented extensions (missing-value
+# marker deletes, an index past the end appends, an insertion marker inserts,
+# several paths address the original positions).  Form (b) must leave the
+# container exactly as the same update addressed to the container itself, i.e.
+# as the plain reference.  Neither form may depend on whether change
+# notification is delivered (`pg.notify_on_change(False)`, `skip_notification`,
+# `notify_parents=False`): notification is no part of the contents.
+#
+# The Session drives the *nested* container `x` (reference: a plain list/dict);
+# the ancestors are reached from it (`x.sym_parent`, `x.sym_root`).  After every
+# step the whole host is compared as well: the target as seen from the root and
+# a sibling container that some of the ancestor-level updates touch too.
+# ---------------------------------------------------------------------------
+
+_HOLDER_SRC = """@pg.members([('v', pg.typing.Any()), ('w', pg.typing.Any())])
+class Holder(pg.Object):
+ pass"""
+
+_NP_SRC = """def NP(v):
+ if isinstance(v,pg.Object):return {k:NP(e) for k,e in v.sym_items()}
+ if isinstance(v,dict):return {k:NP(v[k]) for k in list(v)}
+ if isinstance(v,(list,tuple)):return (tuple if isinstance(v,tuple) else list)(NP(e) for e in v)
+ return v"""
+
+exec(_HOLDER_SRC + '\n' + _NP_SRC, _ENV)  # pylint: disable=exec-used
+NP = _ENV['NP']
+
+
+class Host:
+  """Where the container under test lives.
+
+  embed(t, sib): the plain root holding target contents t and sibling list sib.
+  mk:   source over `P` (the plain root) building the symbolic root.
+  get:  source over `h` (the symbolic root) reaching the target.
+  recv: [(receiver source over x, path of the target below that receiver,
+          path of the sibling below that receiver, kind of the receiver)].
+  """
+
+  def __init__(self, name, embed, mk, get, recv):
+    self.name, self.embed, self.mk, self.get, self.recv = name, embed, mk, get, recv
+
+
+_HOSTS = [
+    Host('top-level', lambda t, s: t, 'pg.{kind}(P)', 'h', []),
+    Host('in-dict', lambda t, s: {'a': t, 'b': s}, 'pg.Dict(P)', "h['a']",
+         [('x.sym_parent', 'a', 'b', 'Dict')]),
+    Host('in-list', lambda t, s: ['lead', t, s], 'pg.List(P)', 'h[1]',
+         [('x.sym_parent', '[1]', '[2]', 'List')]),
+    Host('in-object', lambda t, s: {'v': t, 'w': s}, 'Holder(**P)', 'h.v',
+         [('x.sym_parent', 'v', 'w', 'Object')]),
+    Host('depth-3', lambda t, s: {'p': [{'k': 1}, {'q': t, 's': s}], 'z': 0}, 'pg.Dict(P)', "h['p'][1]['q']",
+         [('x.sym_parent', 'q', 's', 'Dict'), ('x.sym_parent.sym_parent', '[1].q', '[1].s', 'List'),
+          ('x.sym_root', 'p[1].q', 'p[1].s', 'Dict')]),
+    Host('below-object-in-dict', lambda t, s: {'o': {'v': [t, s], 'w': 0}}, "pg.Dict(o=Holder(**P['o']))",
+         "h['o'].v[0]",
+         [('x.sym_parent', '[0]', '[1]', 'List'), ('x.sym_parent.sym_parent', 'v[0]', 'v[1]', 'Object'),
+          ('x.sym_root', 'o.v[0]', 'o.v[1]', 'Dict')]),
+]
+
+_SIB0 = [70, [71], {'s': 72}]
+
+
+class NestedSession(Session):
+  """A Session whose container lives inside a host; also checks the host."""
+
+  def __init__(self, rec, host, kind, init, **kw):
+    self.host, self.sib = host, N(_SIB0)
+    self.mk = host.mk.format(kind=kind)
+    super().__init__(rec, kind, init, **kw)
+
+  def _make(self, r):
+    self.base_sib = N(self.sib)
+    self.root = eval(self.mk, dict(_ENV, P=self.host.embed(N(r), N(self.sib))))  # pylint: disable=eval-used
+    return eval(self.host.get, dict(_ENV, h=self.root))  # pylint: disable=eval-used
+
+  def _ctor(self):
+    return '\n'.join([_HOLDER_SRC, _NP_SRC, f'P = {self.host.embed(N(self.base), N(self.base_sib))!r}',
+                      f'h = {self.mk}', f'x = {self.host.get}'])
+
+  def step(self, op, key):
+    fn = getattr(op, 'sib_fn', None)
+    if fn is not None:
+      self.sib = fn(self.sib)    # (such ops never raise on the reference side)
+    return super().step(op, key)
+
+  def _post(self, op, cid, key, before):
+    want_root = self.host.embed(N(self.r), N(self.sib))
+    checks = [('NP(h)', repr(NP(self.root)), repr(want_root))]
+    if 'Holder' not in self.mk:
+      try:
+        js = repr(pg.to_json(self.root))
+      except Exception as e:  # pylint: disable=broad-except
+        js = f'raised {type(e).__name__}'
+      checks.append(('pg.to_json(h)', js, repr(want_root)))
+    for src, got, want in checks:
+      if got != want:
+        self.rec.case(
+            f'{cid}/host-view', key, False,
+            f'host {self.host.name}: after {op.src} on {before!r}: {src} is {got}, reference {want}',
+            _witness(self._ctor(), self.base, self.prefix + [op.src], None,
+                     f'got = repr({src})\nassert got == {want!r}, got'))
+        return False
+    return True
+
+
+def _join(prefix, k):
+  if isinstance(k, int):
+    return f'{prefix}[{k}]'
+  return f'{prefix}.{k}' if prefix else k
+
+
+# (label in the case id, context-manager prefix, extra rebind arguments)
+_NOTIFY_MODES = [
+    ('notification-on', '', ''),
+    ('no-parent-notification', '', ', notify_parents=False'),
+    ('notification-off', '', ', skip_notification=True'),
+    ('notification-off', 'with pg.notify_on_change(False): ', ''),
+]
+_REBINDER = ('rebinder-function', None, None)
+_ALL_MODES = _NOTIFY_MODES + [_REBINDER]
+
+
+def _sib_part(spre, sib):
+  """An additional update of the (non-empty) sibling list in the same rebind call."""
+  if sib == 'del':
+    return f'{_join(spre, 0)!r}: M', (lambda s: s[1:])
+  if sib == 'rep':
+    return f'{_join(spre, 0)!r}: "S"', (lambda s: ['S'] + s[1:])
+  if sib == 'app':
+    return f'{_join(spre, 9)!r}: 5', (lambda s: s + [5])
+  return None, None
+
+
+def _sib_choices(mode, sib_len):
+  """Sibling updates that are meaningful under `mode`.
+
+  A rebinder function is not offered a slot past the end, so it cannot append.
+  With notification off, deletion is exercised on the target only (a deletion
+  in the sibling would be the very same input class as one in the target).
+  """
+  if sib_len < 2:
+    return (None, 'app') if mode[1] is not None else (None,)
+  if mode[1] is None:
+    return (None, 'del', 'rep')
+  if mode[0] == 'notification-off':
+    return (None, 'rep', 'app')
+  return (None, 'del', 'app')
+
+
+def _anc_ok(ups):
+  """Update sets whose meaning does not depend on the order of application.
+
+  The statement fixes what one insertion does; for an insertion *combined with*
+  updates at higher positions of the same list it does not say whether those
+  address the positions before or after the insertion.  Such sets are only used
+  on the container itself (drv_list_*: pyglove documents 'original positions'
+  there), not through ancestors.
+  """
+  ins = [i for i, k, _ in ups if k == 'i']
+  return not ins or (len(ins) == 1 and ins[0] == max(i for i, _, _ in ups))
+
+
+def _rebind_call(recv, parts, mode):
+  _, ctx, kw = mode
+  body = '{' + ', '.join(parts) + '}'
+  if ctx is None:    # rebinder function: every node is offered, keyed by its path below the receiver
+    return f'_ = {recv}.rebind(lambda k, v: {body}.get(str(k), v), raise_on_no_change=False)'
+  return f'{ctx}_ = {recv}.rebind({body}{kw})'
+
+
+def _anc_list_cid(label, ups):
+  def f(r):
+    n = len(r)
+    if len(ups) > 1 and sum(1 for i, _, _ in ups if i >= n) >= 2:
+      return 'list.rebind-multi/several-past-end'     # (same input class as at top level)
+    if any(i < -n for i, _, _ in ups):
+      cls = 'negative-out-of-range'
+    elif any(k == 'd' and i < n for i, k, _ in ups):
+      cls = 'with-delete'
+    elif any(k == 'i' for _, k, _ in ups):
+      cls = 'with-insert'
+    else:
+      cls = 'replace-or-append'
+    return f'nested-list.anc-rebind/{label}/{cls}'
+  return f
+
+
+def anc_list_op(recv, tpre, spre, ups, mode, sib=None):
+  """`ups` applied to the nested list through the ancestor `recv`."""
+  parts = []
+  for i, k, v in ups:
+    parts.append(f'{_join(tpre, i)!r}: ' + {'r': repr(v), 'i': f'Ins({v!r})', 'd': 'M'}[k])
+  sp, sib_fn = _sib_part(spre, sib)
+  if sp is not None:
+    parts.insert(0 if sib == 'del' else len(parts), sp)
+  if mode[1] is None:
+    # A rebinder function is only offered the existing elements.
+    def ref(r):
+      seen = [u for u in ups if 0 <= u[0] < len(r)]
+      if seen:
+        _ref_rebind(seen)(r)
+  else:
+    def ref(r):
+      _ref_rebind(ups)(r)
+  op = Op(_rebind_call(recv, parts, mode), _anc_list_cid(mode[0], ups), ref=ref, alts=_alts_rebind(ups))
+  op.sib_fn = sib_fn
+  return op
+
+
+def anc_dict_op(recv, tpre, spre, ups, mode, sib=None, recv_kind='Dict'):
+  """`ups` = [(key, value or M)] applied to the nested dict through `recv`."""
+  parts = [f'{_join(tpre, k)!r}: {_val_src(v)}' for k, v in ups]
+  sp, sib_fn = _sib_part(spre, sib)
+  if sp is not None:
+    parts.insert(0 if sib == 'del' else len(parts), sp)
+  if mode[1] is None:
+    def ref(r):
+      seen = [u for u in ups if u[0] in r]
+      if seen:
+        _ref_dict_rebind(seen)(r)
+  else:
+    def ref(r):
+      _ref_dict_rebind(ups)(r)
+  def cid(r):
+    new = sum(1 for k, v in ups if v is not M and k not in r)
+    if new >= 2 and recv_kind == 'List' and mode[1] is not None:
+      # several new keys in one call, the call being made on a list (which
+      # orders the paths it is given): one input class whatever the mode.
+      return 'nested-dict.anc-rebind/several-new-keys/list-receiver'
+    cls = 'with-delete' if any(v is M and k in r for k, v in ups) else ('several-new-keys' if new >= 2 else 'set')
+    return f'nested-dict.anc-rebind/{mode[0]}/{cls}'
+  op = Op(_rebind_call(recv, parts, mode), cid, ref=ref)
+  op.sib_fn = sib_fn
+  return op
+
+
+def _quiet(op):
+  """The same (mutating) operation with change notification switched off."""
+  ref = None
+  if op.ref is not None:
+    def ref(r, f=op.ref):
+      f(r)
+  def cid(r):
+    c = op.cid(r)
+    return c if c == 'list.rebind-multi/several-past-end' else c + '/notification-off'
+  return Op('with pg.notify_on_change(False): ' + op.src, cid, ref=ref, alts=op.alts)
+
+
+def _direct_list_ops():
+  ops = [o for o in _hist_alphabet(0)]
+  for i in (0, -1, 2, 7):
+    ops.append(Op(f'x[{i}] = M', lambda r, i=i: f'list.setitem-MISSING/{_icls(i, len(r))}',
+                  ref=_ref_setitem_missing(i)))
+  ops.append(Op('x.append(M)', 'list.append/MISSING(no-op)', ref=lambda r: None))
+  return ops + [_quiet(o) for o in ops if o.mut]
+
+
+def _direct_dict_ops():
+  ops = _dict_hist_alphabet()
+  return ops + [_quiet(o) for o in ops if o.mut]
+
+
+_NEST_VALS = [5, 'v', None, [6, [7]], {'k': 8}]
+
+
+def _anc_list_ups(n, triples):
+  """Update sets for a list of length n: 1..3 paths x replace/insert/delete."""
+  res = []
+  for i in range(-n - 1, n + 2):
+    for k in 'rid':
+      res.append([(i, k, _NEST_VALS[(i + len(k)) % len(_NEST_VALS)] if i % 2 else 50 + abs(i))])
+  idx = list(range(0, n + 2))
+  for a, b in itertools.combinations(idx, 2):
+    for ka in 'rid':
+      for kb in 'rid':
+        ups = [(a, ka, 60 + a), (b, kb, [60 + b])]
+        res.append(ups if (a + b) % 2 else ups[::-1])
+  if triples:
+    for a, b, c in itertools.combinations(idx[:4], 3):
+      for ks in itertools.product('rid', repeat=3):
+        res.append([(a, ks[0], 70 + a), (c, ks[2], {'t': 70 + c}), (b, ks[1], 70 + b)])
+  return res
+
+
+_ANC_DICT_UPS = (
+    [[(k, v)] for k in ('a', 'b', 'new', 0, 1) for v in (5, [6, [7]], {'k': {'j': [1]}}, None, M)]
+    + [[('new', 1), ('a', M), (0, [2])], [('c', 1), ('q', 2), ('a', 3)], [(0, [2]), ('new', 1), (1, 3)], [('a', M), ('b', M), (0, M)],
+       [(0, M), ('zz', {'y': 1}), ('b', [9])], [('b', M), ('b2', 4)]])
+
+
+def drv_nested(tier, seed):
+  """Containers inside other symbolic values; updates through ancestors; notification off."""
+  quick = tier == 'quick'
+  rec = Recorder(
+      'C02', 'nested pg.List / pg.Dict: direct and ancestor-level updates, with and without change notification, vs list / dict',
+      scope=(f'4 initial lists (len 0,1,3,4) and 3 initial dicts; {len(_HOSTS)} hosts (top level, value of a Dict, element of a List, field of an Object, depth 3, below an '
+             'Object inside a Dict); every ancestor as receiver of rebind; update sets of 1..3 paths x replace / insert '
+             '(Insertion) / delete (MISSING_VALUE) incl. negative and past-the-end indices, optionally with an update of a '
+             'sibling list in the same call; 5 delivery modes (default, notify_parents=False, skip_notification=True, '
+             'pg.notify_on_change(False), rebinder function); the history alphabets applied directly to the nested '
+             'container, each mutator also under pg.notify_on_change(False); seeded random histories (length <=10) mixing '
+             'all of these; after every step: outcome, full read API of the nested container and the whole host'))
+  list_inits = [[], [0], [0, 1, 2], [3, [1, [2]], {'a': 0}, 5]] + ([] if quick else [list(range(5))])
+  dict_inits = [{}, {'a': 1, 'b': 2, 0: 'z'}, {'b': {'x': 1}, 'a': [1]}]
+  direct_l, direct_d = _direct_list_ops(), _direct_dict_ops()
+  for hi, host in enumerate(_HOSTS):
+    # (hosts that hold an Object are several times dearer to build: fewer initial contents in the quick tier)
+    dear = quick and 'Holder' in host.mk
+    for init in (list_inits if not dear else [[], [0, 1, 2]]):
+      for op in direct_l:
+        NestedSession(rec, host, 'List', init, resync_on_fail=False).step(op, (host.name, init, op.src))
+      for ri, (recv, tpre, spre, _) in enumerate(host.recv):
+        for mi, mode in enumerate(_ALL_MODES):
+          # quick: every single path always; the sets of 2 paths in full for the default mode on the direct parent
+          # and a rotating third elsewhere; the sets of 3 paths on the direct parent of two hosts (default mode and
+          # notification off).  thorough: everything everywhere.
+          full = not quick or (ri == 0 and mi == 0)
+          upsets = _anc_list_ups(len(init), triples=not quick or (hi in (1, 4) and ri == 0 and mi in (0, 3)))
+          for ui, ups in enumerate(upsets):
+            if not _anc_ok(ups) or (len(ups) > 1 and not full and ui % 3 != (ri + mi) % 3):
+              continue
+            safe = all(i >= 0 for i, _, _ in ups)
+            sibs = _sib_choices(mode, len(_SIB0))
+            op = anc_list_op(recv, tpre, spre, ups, mode, sibs[(ui + mi) % len(sibs)] if safe else None)
+            NestedSession(rec, host, 'List', init, resync_on_fail=False).step(op, (host.name, init, op.src))
+    for init in (dict_inits if not dear else dict_inits[1:2]):
+      for op in direct_d:
+        NestedSession(rec, host, 'Dict', init, resync_on_fail=False).step(op, (host.name, init, op.src))
+      for recv, tpre, spre, rkind in host.recv:
+        for mi, mode in enumerate(_ALL_MODES):
+          sibs = _sib_choices(mode, len(_SIB0))
+          for ui, ups in enumerate(_ANC_DICT_UPS):
+            op = anc_dict_op(recv, tpre, spre, ups, mode, sibs[(ui + mi) % len(sibs)], rkind)
+            NestedSession(rec, host, 'Dict', init, resync_on_fail=False).step(op, (host.name, init, op.src))
+  # Random histories mixing direct and ancestor-level operations.
+  rnd = rng(seed, 'c02-nested')
+  n_hist = 500 if quick else 8000
+  for h in range(n_hist):
+    host = rnd.choice(_HOSTS)
+    kind = 'List' if rnd.random() < 0.65 else 'Dict'
+    init = rnd.choice(list_inits if kind == 'List' else dict_inits)
+    s = NestedSession(rec, host, kind, init)
+    for j in range(rnd.randint(3, 10)):
+      if not host.recv or rnd.random() < 0.4:
+        op = rnd.choice(direct_l if kind == 'List' else direct_d)
+        if kind == 'List' and len(s.r) > 12 and ('*=' in op.src or 'x[0:1] = x' in op.src):
+          continue
+      else:
+        recv, tpre, spre, rkind = rnd.choice(host.recv)
+        mode = rnd.choice(_ALL_MODES)
+        sib = rnd.choice((None,) + _sib_choices(mode, len(s.sib)))
+        if kind == 'List':
+          n = len(s.r)
+          if rnd.random() < 0.15:
+            ups, sib = [(rnd.randint(-n - 1, -1), rnd.choice('rid'), 40)], None
+          else:
+            m = rnd.randint(1, min(3, n + 2))
+            ups = [(i, rnd.choice('rid'), rnd.choice(_NEST_VALS + [41, 42, 43]))
+                   for i in rnd.sample(range(0, n + 2), m)]
+            if not _anc_ok(ups):
+              ups = [(i, 'r' if k == 'i' else k, v) for i, k, v in ups]
+          op = anc_list_op(recv, tpre, spre, ups, mode, sib)
+        else:
+          keys = rnd.sample(['a', 'b', 'new', 0, 1, 'c'], rnd.randint(1, 3))
+          ups = [(k, rnd.choice(_NEST_VALS + [M, M])) for k in keys]
+          op = anc_dict_op(recv, tpre, spre, ups, mode, sib, rkind)
+      s.step(op, ('rand', seed, h, j))
+  return rec.result()
+
+
+DRIVERS = [drv_list_single, drv_list_histories, drv_list_ties, drv_dict_single, drv_dict_histories, drv_nested]
 
 
 def replay(rec):
